@@ -227,6 +227,12 @@ func (g *projGen) perturb(m *pMethod, structNames []string) string {
 		kinds = append(kinds, "retarget")
 	}
 	kinds = append(kinds, "second-body", "body-and-form", "drop-url-param", "null-prop", "results-error-field", "local-context-param")
+	for _, i := range bindIdx {
+		if m.Annots[i].Name == "Path" {
+			kinds = append(kinds, "bad-alias-multibyte", "bad-alias-multibyte")
+			break
+		}
+	}
 	k := rng.Pick(r, kinds)
 	switch k {
 	case "drop-annot":
@@ -312,6 +318,15 @@ func (g *projGen) perturb(m *pMethod, structNames []string) string {
 		m.Annots = append(m.Annots, pAnnot{Name: "Foo", Value: "bar"})
 	case "bad-status":
 		m.Annots = append(m.Annots, pAnnot{Name: "ErrorResponse", Value: rng.Pick(r, []string{"abc", "999"}), Desc: "x"})
+	case "bad-alias-multibyte":
+		// an alias that is not a string, inside a properties object with multi-byte text: the diagnostic must still
+		// cover exactly `{ … }`
+		for _, i := range bindIdx {
+			if m.Annots[i].Name == "Path" {
+				m.Annots[i].Props = map[string]any{"name": []any{"識別子"}, "validate": "必須"}
+				break
+			}
+		}
 	case "null-prop":
 		// a property whose JSON5 value is null / of the wrong kind (must be reported, never crash)
 		cands := []int{}
